@@ -34,9 +34,15 @@ def make_dataset(case, side):
     col = np.arange(case.get("col0", 0), case.get("col0", 0) + cols)
     bands = case.get("bands")
     if bands:
+        names = list(bands)
+        # the two images may store the same named bands in a different order: a band is selected by NAME
+        perm = case.get(f"{side}_band_perm")
+        if perm:
+            im = im[list(perm)]
+            names = [names[i] for i in perm]
         ds = xr.Dataset(
             {"im": (["band_im", "row", "col"], im)},
-            coords={"band_im": list(bands), "row": row, "col": col},
+            coords={"band_im": names, "row": row, "col": col},
         )
     else:
         # a mono-band dataset of create_dataset_from_inputs carries no band_im coordinate
